@@ -392,7 +392,8 @@ func runNodeLeg(r *vf.Run) {
 	root := vf.TempDir("c25")
 	defer os.RemoveAll(root)
 	var genesis [32]byte
-	copy(genesis[:], cipher.SumSHA256([]byte("c25-genesis"))[:])
+	gh := cipher.SumSHA256([]byte("c25-genesis"))
+	copy(genesis[:], gh[:])
 
 	vf.Parallel(nodes, nodes, func(ni int) {
 		rng := r.Rand("node", ni)
